@@ -114,7 +114,7 @@ func classifyEvent(e stun.Event) string {
 		return "other:nil error and nil message"
 	case errors.Is(e.Error, stun.ErrTransactionTimeOut):
 		return "timeout"
-	case errors.Is(e.Error, sim.ErrInjectedWrite):
+	case errors.Is(e.Error, sim.ErrInjectedWrite), errors.Is(e.Error, sim.ErrConnClosed):
 		return "writeerr"
 	case errors.As(e.Error, &se) && errors.Is(se.Cause, sim.ErrInjectedWrite):
 		if se.Err == nil {
